@@ -30,6 +30,9 @@ def run(check, pool, Task):
     bases = {k: (v if thorough else v[:3]) for k, v in INERT.items()}
     W.run_arrays(check, pool, Task, 'C17', allq, derivs=['identity'], dtypes=('float64',), flags='nan', bases=bases, inert=True, label='inert')
     W.run_arrays(check, pool, Task, 'C17', allq, derivs=['slice[1:]', 'take_fill[0,NA,2]'] if thorough else ['slice[1:]'], dtypes=('float64',), flags='nan', inert=True, label='inert')
+    # NaN and infinity flags: an element made of infinities has no finite coordinate either
+    infb = {'line': [[2, None]], 'ring': [[3]]} if not thorough else {'line': [[2, None]], 'ring': [[3]], 'multiline': [[[2], None]], 'polygon': [[[3]]]}
+    W.run_arrays(check, pool, Task, 'C17', ('intersects_bounds',), kinds=list(infb), derivs=['identity'], dtypes=('float64',), flags=True, bases=infb, inert=True, label='inert(NaN+inf)')
     W.run_point_intersects(check, pool, Task, 'C17')
     W.run_point_intersects_inert(check, pool, Task, 'C17')
     # spatial index and cx with NaN rows
